@@ -128,9 +128,7 @@ func (d *clientDriver) run(offer func(net.Conn) bool) {
 	cs := d.sc.Client
 	ch := &ClientHistory{}
 	d.h.Client = ch
-	if d.sc.DialAt > 0 {
-		sleepClass(d.class, d.sc.DialAt)
-	}
+	sleepClass(d.class, d.sc.DialAt)
 	d.raw.faults.WriteSplit = cs.Split
 	d.h.Offered = offer(nil)
 	if !d.h.Offered {
